@@ -493,7 +493,11 @@ class IdGen(object):
         return float(self.n)
 
 
+_GRID = [12]
+
+
 def gen_ts(rng, ids, multi_ok, rowcomplete, grid=12, intcols_ok=False):
+    grid = _GRID[0] if grid == 12 else grid
     mode = rng.random()
     if mode < 0.08:
         ts = []
@@ -551,6 +555,7 @@ def gen_container(rng, ids, depth, multi_ok, rowcomplete, intcols_ok=False):
 
 
 def gen_case(rng):
+    _GRID[0] = 12 if rng.random() > 0.03 else 140        # a few long series in every tier
     r = rng.random()
     ids = IdGen()
     method = rng.choice([None, None, 'ffill', 'bfill'])
